@@ -1,4 +1,6 @@
 pub mod catp;
+pub mod credp;
+pub mod encp;
 pub mod plogp;
 pub mod plogp2;
 
@@ -10,6 +12,8 @@ pub fn plan(prop: &str, tier: &str) -> Option<(PropMeta, Vec<Job>)> {
         "C01" | "C02" | "C03" => Some(plogp::plan(prop, tier)),
         "C14" | "C15" | "C16" | "C18" => Some(plogp2::plan(prop, tier)),
         "C05" | "C06" => Some(catp::plan(prop, tier)),
+        "C10" => Some(credp::plan(tier)),
+        "C19" => Some(encp::plan(tier)),
         _ => None,
     }
 }
@@ -19,6 +23,8 @@ pub fn run_job(job: &Job) -> JobResult {
         "C01" | "C02" | "C03" => plogp::run_job(job),
         "C14" | "C15" | "C16" | "C18" => plogp2::run_job(job),
         "C05" | "C06" => catp::run_job(job),
+        "C10" => credp::run_job(job),
+        "C19" => encp::run_job(job),
         p => JobResult { machinery_error: Some(format!("unknown property {p}")), ..Default::default() },
     }
 }
@@ -28,6 +34,7 @@ pub fn replay(prop: &str, replay: &Value) -> Vec<Violation> {
     match replay.get("kind").and_then(|k| k.as_str()) {
         Some("plog") => plogp::replay(prop, replay),
         Some("cat") => catp::replay(prop, replay),
+        Some("enc") => encp::replay(replay),
         _ => Vec::new(),
     }
 }
